@@ -63,11 +63,31 @@ def sha(s):
     return hashlib.sha256(s.encode("utf8")).hexdigest()
 
 
+THEOREMS = {
+    "Complement": ["RbV.Thm.C20.complement_tables_wellformed", "RbV.Thm.C20.complement_tables_involutive",
+                   "RbV.Thm.C20.complement_tables_case", "RbV.Thm.C20.complement_tables_identity_outside"],
+    "Dna2Int": ["RbV.Thm.C17.dna2int_generated_ok", "RbV.Thm.C17.dna2int_codes_fit_height",
+                "RbV.Thm.C17.wavelet_rank_correct_generated"],
+    "Scales": ["RbV.Thm.C15.phred_factors_inverse", "RbV.Thm.C15.phred_factors_near_exact_given_ln10_enclosure",
+               "RbV.Thm.C15.fastexp_poly_endpoints", "RbV.Thm.C15.fastexp_poly_is_model_poly",
+               "RbV.Thm.C15.fastexp_exponent_field_in_range"],
+    "Limits": ["RbV.Thm.GenLimits.min_score_pairwise_eq_poa", "RbV.Thm.GenLimits.two_min_scores_no_i32_overflow",
+               "RbV.Thm.GenLimits.min_score_range", "RbV.Thm.GenLimits.min_score_headroom",
+               "RbV.Thm.GenLimits.max_cells_pos_and_default_match_pos"],
+    "TbCodes": ["RbV.Thm.GenTbCodes.tb_codes_distinct", "RbV.Thm.GenTbCodes.tb_codes_le_max",
+                "RbV.Thm.GenTbCodes.tb_max_fits_field", "RbV.Thm.GenTbCodes.tb_fields_disjoint",
+                "RbV.Thm.GenTbCodes.tb_get_after_set", "RbV.Thm.GenTbCodes.tb_set_preserves_other_fields",
+                "RbV.Thm.GenTbCodes.tb_set_fits_cell", "RbV.Thm.GenTbCodes.tb_set_all"],
+    "Occ": ["RbV.Thm.C04.occ_get_exact (for every threshold)", "RbV.Thm.C04.occ_get_forward_up_to_threshold"],
+}
+
+
 def emit(name, prop, text, sources, snippets):
     """write Gen/<name>.lean when changed; record provenance"""
     changed = write_if_changed(os.path.join(GEN, name + ".lean"), text)
     print("gen_tables: Gen/%s.lean %s" % (name, "rewritten" if changed else "unchanged"))
     REPORT.append(dict(lean_file="lean/RbV/Gen/%s.lean" % name, property=prop, lean_sha256=sha(text), rewritten=changed,
+                       theorems=THEOREMS.get(name, []),
                        sources=[dict(file=rel, sha256=sha(txt)) for rel, txt in sources],
                        extracted={k: dict(text=" ".join(v.split())[:200], sha256=sha(v)[:16]) for k, v in snippets.items()}))
 
